@@ -26,7 +26,8 @@ type Case struct {
 
 func behaviour(r *sb.RunResult) string {
 	cls, kind, msg := px.OutcomeClass(r.Outcome)
-	return fmt.Sprintf("%s/%s/%q out=%q", cls, kind, msg, strings.Join(r.Writes, ""))
+	// trigger registrations are host-visible effects like writes (C01 counts them as such)
+	return fmt.Sprintf("%s/%s/%q out=%q triggers=%v annotations=%q", cls, kind, msg, strings.Join(r.Writes, ""), trigText(r.Triggers), r.Annotations)
 }
 
 func firstProblem(resp *sb.Response) string {
@@ -227,4 +228,20 @@ func TestTableExamples(t *testing.T) {
 		}
 	}
 	col.Done(t)
+}
+
+// trigText renders trigger registrations without their spans (a printed program has a new layout).
+func trigText(ts []sb.TriggerCall) []string {
+	var out []string
+	for _, t := range ts {
+		out = append(out, fmt.Sprintf("%s@%s(%s)", t.Callback, t.Trigger, strings.Join(t.Args, ",")))
+	}
+	return out
+}
+
+// Request: like ProgCase.Request, and the compiled function annotations are evaluated as well.
+func (c Case) Request(backends ...string) *sb.Request {
+	r := c.ProgCase.Request(backends...)
+	r.Annotations = true
+	return r
 }
